@@ -457,7 +457,7 @@ def read_action(a) -> RefAction:
     return RefAction(dims, labels, vals)
 
 
-def compare(got: RefAction, want: RefAction, check_order: bool) -> str | None:
+def compare(got: RefAction, want: RefAction, check_order: bool, atol: float = 1e-9) -> str | None:
     if set(got.dims) != set(want.dims):
         return f"dimensions {got.dims} differ from documented {want.dims}"
     if got.sizes != want.sizes:
@@ -474,6 +474,6 @@ def compare(got: RefAction, want: RefAction, check_order: bool) -> str | None:
         a, b = np.asarray(g.vals[i], dtype=float), np.asarray(want.vals[i], dtype=float)
         if a.shape != b.shape:
             return f"value at {i} has shape {a.shape}, NumPy gives {b.shape}"
-        if not np.allclose(a, b, rtol=1e-9, atol=1e-9, equal_nan=True):
+        if not np.allclose(a, b, rtol=1e-9, atol=atol, equal_nan=True):
             return f"value at {i} is {a.tolist()}, NumPy gives {b.tolist()}"
     return None
